@@ -1,8 +1,9 @@
 import json, sys, subprocess, os, glob
 pid = sys.argv[1]
 p = [json.loads(l) for l in open('/verif/properties.jsonl') if json.loads(l)['id'] == pid][0]
-wt = f"/tmp/seed2_{pid}"
-out = f"/tmp/seedout2_{pid}"
+rnd = __import__("os").environ.get("ROUND", "2")
+wt = f"/tmp/seed{rnd}_{pid}"
+out = f"/tmp/seedout{rnd}_{pid}"
 os.makedirs(out, exist_ok=True)
 subprocess.run(f"git -C /repo worktree remove --force {wt} 2>/dev/null; git -C /repo worktree add -q --detach {wt} HEAD", shell=True)
 prev = []
@@ -16,7 +17,7 @@ base = subprocess.run(["/venv/bin/python", "/verif/tools/seed_prompt.py", pid], 
 subprocess.run(f"git -C /repo worktree remove --force /tmp/seed_{pid} 2>/dev/null", shell=True)
 base = base.replace(f"/tmp/seed_{pid}", wt).replace(f"/tmp/seedout_{pid}", out)
 marker = "Your job: produce TWO different"
-add = ("ROUND 2. Earlier attempts of this kind already exist and were all detected; do NOT repeat them or close variants of them:\n"
+add = ("ROUND " + rnd + ". Earlier attempts of this kind already exist and were all detected; do NOT repeat them or close variants of them:\n"
        + "\n".join(prev) + "\n"
        "Aim for something SUBTLER than those: a violation that needs a longer or more unusual sequence, a boundary value, an interaction between two features, state carried across calls or across objects, an error path, or a rarely used configuration; prefer changes spread over two cooperating sites. "
        + extra + "\n\n")
